@@ -168,6 +168,14 @@ type Tracking struct {
 	Website *org.Website `json:"website,omitempty" jsonschema:"title=Website"`
 }
 
+// Validate ensures the tracking details look correct.
+func (t *Tracking) Validate() error {
+	return validation.ValidateStruct(t,
+		validation.Field(&t.Code),
+		validation.Field(&t.Website),
+	)
+}
+
 // Validate the delivery document
 func (dlv *Delivery) Validate() error {
 	return dlv.ValidateWithContext(context.Background())
